@@ -11,12 +11,12 @@ CHECKS = {
  "C02": ("exploration", "FinalizeToken(s) on honest, corrupted and foreign responses: every single-bit flip of each honest response (exhaustive), full state x response cross-pairing, type-5 drops/duplications/swaps/extra elements/foreign proofs, interleaved lifecycles of up to 4 outstanding requests, odd salt lengths, one client object reused across keys with colliding truncated ids; universal oracle (nil error => token valid under the request's key and bound to the request) plus the rejection list of the statement",
          "trusted: circl, crypto/rsa; per-class counters (decode / proof / count / AEAD / RSA) must all be observed",
          "runtime monitoring: universal post-condition oracle + must-reject corpus (exhaustive bit flips)"),
- "C03": ("exploration", "every byte-consuming entry point under structure-aware hostile inputs (truncations, extensions, every length/count field and varint form up to 2^62-1, type tags, splices, well-framed hostile content, HPKE-sealed hostile inner requests, hostile key/scalar arguments); each call journalled before it is made, run in child processes under RLIMIT_AS with a CPU-time stall watchdog and a calibrated allocation bound",
+ "C03": ("exploration", "every byte-consuming entry point under structure-aware hostile inputs (truncations, extensions, every length/count field and varint form up to 2^62-1, type tags, splices, well-framed hostile content, HPKE-sealed hostile inner requests, hostile key/scalar arguments); each call journalled before it is made, run in child processes under RLIMIT_AS with a CPU-time stall watchdog and a calibrated allocation bound; followed by a coverage-guided stage (Go native fuzzing over the same entry points and oracle, 40 000 / 4 000 000 executions)",
          "trusted: Go runtime metrics (/gc/heap/allocs:bytes); struct-level hostility limited to shapes the wire decoders can produce",
-         "runtime monitoring: crash/allocation/termination monitor with journalled child-process workers"),
- "C04": ("exploration", "value round trips, accepted-bytes oracle (canonical re-encoding no longer, same value, equals Marshal also on reused objects) and type separation (every 16-bit tag x body x decoder, exhaustive) against the harness's own encoders/parsers; Rust interop vectors as independent encodings",
+         "runtime monitoring: crash/allocation/termination monitor with journalled child-process workers + coverage-guided fuzzing stage"),
+ "C04": ("exploration", "value round trips, accepted-bytes oracle (canonical re-encoding no longer, same value, equals Marshal also on reused objects) and type separation (every 16-bit tag x body x decoder, exhaustive) against the harness's own encoders/parsers; Rust interop vectors as independent encodings; followed by a coverage-guided stage (Go native fuzzing: arbitrary bytes to every decoder, accepted-bytes oracle on every acceptance, 40 000 / 4 000 000 executions)",
          "trusted: the reference encoders in props/c04.go and props/t3wire.go (written from the TLS-presentation structs)",
-         "runtime monitoring: reference-codec differential oracle"),
+         "runtime monitoring: reference-codec differential oracle + coverage-guided fuzzing stage"),
  "C05": ("exploration", "generic batch issuance over the wire: every request-kind sequence of length 1..3/1..4 over 8 kinds under 5 issuer configurations (two with an always-refusing issuer sharing type and truncated key id) plus seeded long and large (63..128) batches, over the wire and handed over in memory, judged by an executable model (present iff a configured issuer of that type and truncated key id evaluates the request itself), per-entry finalization under its own state and an isolation re-run",
          "trusted: circl, crypto/rsa; truncated-key-id collisions excluded by construction",
          "runtime monitoring: executable-model oracle over enumerated batch compositions"),
@@ -89,7 +89,7 @@ def main():
         })
     m = {
         "version": 1,
-        "setup_cmd": f"cd /verif/harness && {ENV} go build -tags verif -o /verif/.build/pmon ./cmd/pmon && {ENV} go build -tags verif -race -o /verif/.build/pmon-race ./cmd/pmon",
+        "setup_cmd": f"cd /verif/harness && {ENV} go build -tags verif -o /verif/.build/pmon ./cmd/pmon && {ENV} go build -tags verif -race -o /verif/.build/pmon-race ./cmd/pmon && {ENV} go test -tags verif -run '^$' -fuzz '^FuzzC03$' -fuzztime 200x ./props && {ENV} go test -tags verif -run '^$' -fuzz '^FuzzC04$' -fuzztime 200x ./props",
         "hooks": {
             "guard": "verif",
             "enable": "Go build tag: go build -tags verif (hook files ed25519/verif_hooks.go, tokens/type3/verif_hooks.go)",
